@@ -199,4 +199,16 @@ PROPS = {
             {"name": "strace", "pkg": "c14", "run": "^TestC14Strace$", "shards": {"quick": 4, "thorough": 12}, "timeout": {"quick": 400, "thorough": 3000}},
         ],
     },
+    "C15": {
+        "level": "exploration",
+        "level_text": "The finite cross product was enumerated completely: 12 event-type shapes (plain struct, pointer to struct, TypeNamer on value receiver published by value / by pointer, TypeNamer on pointer receiver published by pointer / by value, state.ChangeMessage and state.ControlMessage by value and by pointer, named string with and without TypeNamer) x 7 API routes (persisted type name vs EventType, Replay with EventType comparison, SubscribeWithReplay replay phase and live phase, RegisterUpcast as source, as target, target chained into SubscribeWithReplay) x 3 stores (memory, paged memory, SQLite). Each cell compares observed deliveries / type names / data with the published events.",
+        "level_note": "Exhaustive over the listed shapes and routes, which are the ones the statement names; an EventTypeName that depends on the value's content cannot be derived from a Go type and is outside the statement (its persisted name is covered by C09).",
+        "technique": "runtime monitoring: direct observation oracle over an exhaustively enumerated shape x API x store matrix",
+        "design_ref": "DESIGN.md section 5 C15",
+        "rule": "distinct = (shape, API route, store); non-trivial = the shape's EventType name differs from its reflect name",
+        "assumptions": [],
+        "parts": [
+            {"name": "matrix", "pkg": "c15", "run": "^TestC15$", "shards": {"quick": 1, "thorough": 1}, "timeout": {"quick": 300, "thorough": 600}},
+        ],
+    },
 }
